@@ -93,15 +93,21 @@ def run(ctx, b, broken):
              ["(", ")", "_Alignas", "_Atomic", "int", "8", "*", "x", "const", "[", "]", "{", "}"]),
             ([("void f ( void ) { if ( x ) ", " }"), ("void f ( void ) { while ( x ) _Static_assert ( ", " ; }")],
              ["_Static_assert", "(", ")", "1", ",", "\"a\"", ";", "x", "else", "{", "}", "int", "T :"]),
-            ([("typedef int T ; ", ""), ("typedef int T ; ", " ;")], ["_Atomic", "(", ")", "int", ";", "T", "*", "typedef", "x", ",", "[", "]", "="])]
+            ([("typedef int T ; ", ""), ("typedef int T ; ", " ;")], ["_Atomic", "(", ")", "int", ";", "T", "*", "typedef", "x", ",", "[", "]", "="]),
+            ([("enum E { ", " } ;"), ("typedef enum { ", " } T ;"), ("void f ( void ) { x = sizeof ( enum { ", " } ) ; }")], ["A", "=", ",", "1", "-", "(", ")", "B", "}", "{", "T", "sizeof", "int"]),
+            ([("int a [ ] = { ", " } ;"), ("struct S s = { ", " } ;")], ["[", "]", "1", "=", ".", "m", ",", "{", "}", "x", "(", ")", "\"s\""]),
+            ([("void f ( ", " ) ;"), ("int f ( a , b ) ", " { }")], ["int", "T", "a", ",", "...", "*", "(", ")", "[", "]", "void", "register", ";"])]
     DL = 4 if ctx.tier == "quick" else 5
     for ctxs_, alpha in DEEP:
         for pre, suf in ctxs_:
-            for n in range(3, DL + 1):
+            for n in range(0, DL + 1):
                 for t in itertools.product(alpha, repeat=n):
                     one(pre + " ".join(t) + suf, "deep-small-alphabet", True)
     for text, _valid in ZOO:
         one(text, "zoo", True)
+        ztoks = text.split(" ")
+        for cut in range(1, len(ztoks)):
+            one(" ".join(ztoks[:cut]), "zoo-truncated", True)       # the input ends at every point
         toks_z = text.split(" ")
         for _ in range(8):
             m = toks_z
